@@ -23,6 +23,12 @@ def run(ck, tier, seed):
         if o.get("skipped"):
             ck.cov["not_run_unbounded_growth"] = ck.cov.get("not_run_unbounded_growth", 0) + 1
             continue
+        if o.get("crash"):
+            sig = "process-crash/" + ("/".join(p["tags"][:3]) if p["tags"][0] != "random" else "random")
+            if sig not in seen:
+                seen.add(sig)
+                ck.mismatch(sig, {"src": c["src"], "what": o["crash"]}, replay={"kind": "lang", "prog": p})
+            continue
         if c["out"].get("class") == "syntax":
             # a line the language has no statement for (`o.x = 7` without `$`): the front end must refuse it
             ck.cov["evaluations"] += 1
